@@ -25,7 +25,7 @@ func init() {
 		}}},
 		Run: run,
 		Floors: func(t string) map[string]int64 {
-			m := map[string]int64{"partner.same_datum": 10000, "partner.wgs84_area_of_use": 2000, "partner.wgs84_small_towgs84": 1000, "partner.geographic_without_datum": 1000, "position.conic_near_pole": 300, "position.across_the_antimeridian_of_the_partner_frame": 200, "position.tm_hair_off_equator": 300, "closure_pair": 5000, "ell.sphere": 60, "units.non_metre": 1000, "pm.set": 500}
+			m := map[string]int64{"partner.same_datum": 10000, "partner.wgs84_area_of_use": 2000, "partner.wgs84_small_towgs84": 1000, "partner.geographic_without_datum": 1000, "position.conic_near_pole": 300, "position.across_the_antimeridian_of_the_partner_frame": 200, "position.mercator_on_the_antimeridian": 50, "position.tm_hair_off_equator": 300, "closure_pair": 5000, "ell.sphere": 60, "units.non_metre": 1000, "pm.set": 500}
 			for _, p := range []string{"longlat", "merc", "lcc", "aea", "eqdc", "tmerc", "utm", "krovak"} {
 				m["proj."+p] = 300
 			}
@@ -192,6 +192,14 @@ func run(c *core.Ctx, idx int) {
 				nearPole = true
 			}
 		}
+		onSeam := false
+		if partner == "same_datum" && d.Proj == "merc" && r.Chance(0.04) {
+			// exactly on the antimeridian of the system's own frame (Mercator is usable at every
+			// longitude; no datum shift is involved, so the longitude is not moved off the seam)
+			lon = 180 * float64(1-2*r.Intn(2))
+			onSeam = true
+			c.Count("position.mercator_on_the_antimeridian")
+		}
 		// longitude in the partner's frame, brought back into (-180, 180] when the difference of
 		// the prime meridians carries it across the antimeridian (the position is the same)
 		lg := lon
@@ -205,7 +213,7 @@ func run(c *core.Ctx, idx int) {
 				c.Count("position.across_the_antimeridian_of_the_partner_frame")
 			}
 		}
-		if math.Abs(lon) > 179.5 || math.Abs(lg) > 179.5 {
+		if (math.Abs(lon) > 179.5 || math.Abs(lg) > 179.5) && !onSeam {
 			c.Count("skipped.longitude_wrap")
 			continue
 		}
@@ -247,6 +255,11 @@ func run(c *core.Ctx, idx int) {
 			continue
 		}
 		a2 := once(geo, def, b.x, b.y)
+		if onSeam && a2.err == "" {
+			// on the seam +180 and -180 are the same position and project to the two ends of the
+			// map: the re-projection must succeed, its easting is not compared
+			continue
+		}
 		if a2.err != "" {
 			c.Violate("error:reforward:"+key, fmt.Sprintf("%s: projecting the un-projected position fails: %s", d.Proj, core.Trunc(a2.err, 120)), detail)
 			continue
